@@ -9,7 +9,7 @@ From Coq Require Import ZArith List Bool Lia.
 Import ListNotations.
 From TD Require Import Spec.PySlice Spec.C08_Dense Model.C08_Lazy Model.C08_Write
   Proofs.C08_CoordP Proofs.C08_IndexP Proofs.C08_EllP Proofs.C08_AdvP Proofs.C08_ShapeP Proofs.C08_CatP Proofs.C08_WriteP
-  Proofs.C08_TenP Proofs.C08_TenWP.
+  Proofs.C08_TenP Proofs.C08_TenWP Proofs.C08_MaskP Proofs.C08_Mask1P Proofs.C08_UnbindP Proofs.C08_UpdateP.
 Open Scope Z_scope.
 
 (* ---- the stack itself ------------------------------------------------------------------------------------- *)
@@ -114,9 +114,58 @@ Theorem C08_split_index_tensor_on_stack_dim : forall sd n shape pre tsh vals pos
 Proof. exact split_index_ten. Qed.
 Print Assumptions C08_split_index_tensor_on_stack_dim.
 
-(* the full statement (any single advanced index: masks on the stack dim or reaching across it, advanced index before/after
-   the stack dim of NESTED stacks) is NOT
-   proved: those placements are covered by the correspondence run only; the repairs C08-D28/D29/D30/D34 of those paths are in the model and exercised by the correspondence run *)
+(* a boolean mask whose first dim sits ON the stack dim (rank 1 = a mask of members; rank >= 2 = it reaches past the stack
+   dim): what _split_index returns -- member j gets the index with row j of the mask in place of the mask, the counters,
+   mask_loc; split_dim is [split_dim_of fixed_D36 ..] (see below) *)
+Theorem C08_split_index_mask_on_stack_dim : forall sd n shape pre m0 msh bits ms post,
+  basic pre -> consumed pre = sd -> Forall post_item post -> one_adv (pre ++ IMask (m0 :: msh) bits :: post) ->
+  mask_unbind (m0 :: msh) bits = Ok ms -> List.length ms = n ->
+  split_index sd n shape (pre ++ IMask (m0 :: msh) bits :: post) =
+  Ok (mk_split_mask (map (fun j => (j, pre ++ nth (Z.to_nat j) ms INone :: post)) (map Z.of_nat (seq 0 n)))
+                    (count_int pre) (count_none pre)
+                    (split_dim_of fixed_D36 (Z.of_nat sd) (count_int pre) (count_none pre)) (List.length pre) ms).
+Proof. exact split_index_mask_on. Qed.
+Print Assumptions C08_split_index_mask_on_stack_dim.
+
+(* split_index_adv_on_stack, rank-1 boolean mask (a mask of members) [partial: flat stack of plain members with at least
+   one batch dim; at least one member selected -- nothing selected is the D31r region]: every stack dim, ints / slices / None
+   before and after the mask: lazy[pre, mask, post] denotes dense[pre, mask, post] (member j's 0-dim True mask adds the dim
+   that squeeze(cat_dim) removes again; the selected members are stacked at cat_dim) *)
+Theorem C08_getitem_mask1_on_stack_dim_partial : forall fuel sd bs0 parts bs pre n bits post a' rsd,
+  parts <> [] -> Forall (fun p => wf_tree p bs /\ is_stack p = false) parts -> (sd <= List.length bs)%nat -> bs <> [] ->
+  basic pre -> consumed pre = sd -> basic post -> existsb (fun b => b) bits = true ->
+  res_shape (pre ++ IMask [n] bits :: post) (insert_at sd (lenZ parts) bs) = Some rsd ->
+  lz_getitem (S fuel) (Stack sd bs0 parts) (pre ++ IMask [n] bits :: post) = Ok a' ->
+  equiv a' (Index (pre ++ IMask [n] bits :: post) (Stack sd bs0 parts)).
+Proof. exact getitem_mask1_on_stack. Qed.
+Print Assumptions C08_getitem_mask1_on_stack_dim_partial.
+
+(* reads: cat_dim = mask_loc - num_single is the number of result dims produced before the mask (where torch puts the
+   mask's result dim), for every prefix of ints / slices / None *)
+Theorem C08_mask_cat_dim : forall pre, basic pre -> Z.of_nat (List.length pre) - count_int pre = Z.of_nat (rdims_l pre).
+Proof. exact cat_dim_basic. Qed.
+Print Assumptions C08_mask_cat_dim.
+
+(* writes: split_dim must be that same dim of the value.  The REPAIRED formula (fixes/C08/C08-D36: + num_none) is [full] ... *)
+Theorem C08_mask_split_dim_repaired : forall pre, basic pre ->
+  split_dim_of true (Z.of_nat (consumed pre)) (count_int pre) (count_none pre) = Z.of_nat (rdims_l pre).
+Proof. exact split_dim_fixed. Qed.
+Print Assumptions C08_mask_split_dim_repaired.
+(* ... the formula of the code today is right when no None precedes the mask [partial] ... *)
+Theorem C08_mask_split_dim_partial : forall pre, basic pre -> count_none pre = 0 ->
+  split_dim_of false (Z.of_nat (consumed pre)) (count_int pre) (count_none pre) = Z.of_nat (rdims_l pre).
+Proof. exact split_dim_partial. Qed.
+Print Assumptions C08_mask_split_dim_partial.
+(* ... and wrong with one [refuted]: lazy[None, mask] = V splits V along dim 0 instead of 1; the write raises (C08-D36) *)
+Theorem C08_mask_split_dim_refuted : exists pre, basic pre /\
+  split_dim_of false (Z.of_nat (consumed pre)) (count_int pre) (count_none pre) <> Z.of_nat (rdims_l pre).
+Proof. exact split_dim_refuted. Qed.
+Print Assumptions C08_mask_split_dim_refuted.
+
+(* the full statement (any single advanced index anywhere, any nesting) is NOT proved.  Still by correspondence only: masks of
+   rank >= 2 starting on or reaching across the stack dim (reads and writes), rank-1 masks on nested stacks / on members without
+   batch dims / selecting nothing, write plans through masks, an advanced index before / after the stack dim of NESTED stacks;
+   the repairs C08-D28/D29/D30/D34 of those paths are in the model and exercised by the correspondence run *)
 Definition C08_getitem_one_adv_full_statement : Prop :=
   forall fuel self bs idx a' rsd,
     wf_tree self bs -> Forall (fun it => is_ell it = false) idx -> one_adv idx -> res_shape idx bs = Some rsd ->
@@ -174,6 +223,24 @@ Theorem C08_setitem_tensor1_on_stack_dim : forall fuel sd bs0 parts bs pre t0 va
 Proof. exact setitem_ten1_plan. Qed.
 Print Assumptions C08_setitem_tensor1_on_stack_dim.
 
+(* write_through for update_ [full for flat stacks of plain members and a source that is dense or lazily stacked along the
+   same dim]: one in-place update per member object, member k receiving a piece that denotes source[:, .., :, k]
+   (= source.unbind(stack_dim)[k]); every rank, stack dim and member count.  A lazy source stacked along ANOTHER dim
+   (the seeded slip C08-2) goes through _unbind across the stack dim: model + correspondence (stream update_) only *)
+Theorem C08_update__write_through : forall fuel sd bs0 parts bs src plan,
+  parts <> [] -> Forall (fun p => shape_of p = Some bs /\ is_stack p = false) parts -> (sd <= List.length bs)%nat ->
+  Forall (fun s => 0 <= s) bs ->
+  shape_of src = Some (insert_at sd (lenZ parts) bs) ->
+  (is_stack src = false \/
+   exists sbs0 sparts, src = Stack sd sbs0 sparts /\ sparts <> [] /\
+                       Forall (fun p => shape_of p = Some bs) sparts /\ Forall (fun p => sound p bs) sparts) ->
+  lz_update_ (S (S fuel)) (Stack sd bs0 parts) src = Ok plan ->
+  exists pieces, List.length pieces = List.length parts /\
+    plan = map (fun mp => WSet (fst mp) [] (snd mp)) (combine parts pieces) /\
+    forall k piece, nth_error pieces k = Some piece -> equiv piece (Index (select_idx sd (Z.of_nat k)) src).
+Proof. exact update__write_through. Qed.
+Print Assumptions C08_update__write_through.
+
 (* ---- shape operations -------------------------------------------------------------------------------------- *)
 (* lazy_shape_ops / transpose [full for flat stacks] (after fix C08-D26): every rank, every stack dim, EVERY pair of dims *)
 Theorem C08_transpose : forall sd bs0 parts bs,
@@ -195,8 +262,18 @@ Theorem C08_unsqueeze : forall sd bs0 parts bs,
 Proof. exact unsqueeze_ok. Qed.
 Print Assumptions C08_unsqueeze.
 
-(* permute / squeeze / unbind / split / repeat / expand / view, and transposes forwarded to nested lazy members:
-   model + correspondence only (no theorem yet) *)
+(* unbind_stackdim [full]: lazy.unbind(stack_dim) returns the member list itself, and member k denotes
+   dense.unbind(stack_dim)[k] = dense[:, .., :, k]; every rank, every stack dim, members of any kind (nested stacks too) *)
+Theorem C08_unbind_stackdim : forall sd bs0 parts bs fuel,
+  parts <> [] -> Forall (fun p => shape_of p = Some bs) parts -> Forall (fun p => sound p bs) parts ->
+  Forall (fun s => 0 <= s) bs -> (sd <= List.length bs)%nat ->
+  lz_unbind (S fuel) (Stack sd bs0 parts) (Z.of_nat sd) = Ok parts /\
+  forall k p, nth_error parts k = Some p -> equiv p (Index (select_idx sd (Z.of_nat k)) (Stack sd bs0 parts)).
+Proof. exact unbind_stackdim. Qed.
+Print Assumptions C08_unbind_stackdim.
+
+(* permute / squeeze / unbind across the stack dim / split / repeat / expand / view, and transposes forwarded to nested lazy
+   members: model + correspondence only (no theorem yet) *)
 
 (* ---- cat(out=) offsets, insert / append -------------------------------------------------------------------- *)
 (* lazy_cat_offsets (after fix C08-D13: init_idx += n): operand k is written to members [sum_{i<k} n_i, sum_{i<=k} n_i),
@@ -284,3 +361,28 @@ Example C08_ex_tensor_write_routed_by_value :
   exists plan, run_setitem 3 (Stack 0 [3] [Leaf 0 [3]; Leaf 1 [3]; Leaf 2 [3]]) ([] ++ ITen [3] [1; 2; 0] :: [ISl (Some 1) None None]) [3; 2] = Ok plan /\
     plan = write_plan_of [Leaf 1 [3]; Leaf 2 [3]; Leaf 0 [3]] [ISl (Some 1) None None] 0 (Leaf VID [3; 2]).
 Proof. eexists. split; [vm_compute; reflexivity|reflexivity]. Qed.
+(* a rank-1 mask on stack dim 1 behind a None: three rows, cat_dim 2; split_dim follows the switch *)
+Example C08_ex_mask_on_stack_dim :
+  exists sp, split_index 1 3 [2; 3; 2] ([INone; ISl None None None] ++ IMask [3] [true; false; true] :: [IInt 0]) = Ok sp /\
+    sp_has_bool sp = true /\ Z.of_nat (sp_mask_loc sp) - sp_num_single sp = 2 /\
+    sp_split_dim sp = split_dim_of fixed_D36 1 0 1 /\
+    sp_kind sp = KDict [(0, [INone; ISl None None None; IMask [] [true]; IInt 0]);
+                        (1, [INone; ISl None None None; IMask [] [false]; IInt 0]);
+                        (2, [INone; ISl None None None; IMask [] [true]; IInt 0])].
+Proof. eexists. split; [vm_compute; reflexivity|]. repeat split; reflexivity. Qed.
+Example C08_ex_unbind : lz_unbind 2 ex_tree 1 = Ok [Leaf 0 [2; 2]; Leaf 1 [2; 2]; Leaf 2 [2; 2]].
+Proof. reflexivity. Qed.
+(* update_ with a lazy source stacked along the OTHER dim of a square batch (the input of the seeded slip C08-2):
+   member k receives column k of the source, not its member k *)
+Example C08_ex_update__other_dim :
+  exists plan, run_update_ 4 (Stack 0 [2] [Leaf 0 [2]; Leaf 1 [2]]) 1 [2; 2] = Ok plan /\
+    exists ws, eval_plan [(0%nat, [2]); (1%nat, [2])] [2; 2] plan = EvOk (ws, false) /\
+      map (fun jp => lookup_last ws (fst jp) (snd jp)) [(0%nat, 0); (0%nat, 1); (1%nat, 0); (1%nat, 1)] = [Some 0; Some 1; Some 2; Some 3].
+Proof. eexists. split; [vm_compute; reflexivity|]. eexists. split; [vm_compute; reflexivity|reflexivity]. Qed.
+(* a mask of members behind a None and a slice, an int after it *)
+Example C08_ex_mask1_read :
+  let idx := [INone; ISl None None None] ++ IMask [3] [true; false; true] :: [IInt (-1)] in
+  res_shape idx [2; 3; 2] = Some [1; 2; 2] /\
+  exists a', lz_getitem 3 ex_tree idx = Ok a' /\ shape_of a' = Some [1; 2; 2] /\
+             map (at_ a') (all_indices [1; 2; 2]) = [Some (0%nat, [0; 1]); Some (2%nat, [0; 1]); Some (0%nat, [1; 1]); Some (2%nat, [1; 1])].
+Proof. cbn zeta. split; [reflexivity|]. eexists. split; [vm_compute; reflexivity|]. split; reflexivity. Qed.
